@@ -464,6 +464,7 @@ class Interp:
         st.notes = list(o.notes)
         st.comps = list(o.comps)
         st.axioms = set(o.axioms)
+        st.eqv_stale = getattr(o, 'eqv_stale', False)
         st.eqv_used = o.eqv_used
         st.eqv_unsound = o.eqv_unsound
         st.written = {k: list(v) for k, v in o.written.items()}
@@ -837,8 +838,10 @@ class Interp:
         if cls and not self.is_fresh(r):
             pc = self.reg.pyclass(cls)
             dont = getattr(pc, 'dont_compare_fields', ()) if pc is not None else ()
-            if st.eqv_used and attr not in dont and pc is not None and hasattr(pc, 'dont_compare_fields'):
-                st.eqv_unsound = True
+            if attr not in dont and pc is not None and hasattr(pc, 'dont_compare_fields'):
+                # structural equality is modelled as heap-independent: it must not be consulted
+                # again after a compared attribute of a pre-existing object has been written
+                st.eqv_stale = True
         st.set_arr('F:' + attr, z3.Store(st.F(attr), r, b), r)
 
     def is_fresh(self, r) -> bool:
@@ -1177,7 +1180,10 @@ class Interp:
         raise Unsupported(f'unbound name {name}')
 
     def ev_Tuple(self, node, fr):
-        return SV('tuple', py=self.ev_elts(node.elts, fr, as_tuple=True))
+        try:
+            return SV('tuple', py=self.ev_elts(node.elts, fr, as_tuple=True))
+        except _SegTuple as e:
+            return SV('iter', py=e.segs)
 
     def ev_List(self, node, fr):
         segs = self.ev_elts(node.elts, fr, as_tuple=False)
@@ -1276,22 +1282,31 @@ class Interp:
         path space whatever the hypothesis)."""
         st = self.st
         n0 = len(st.pc)
-        before = set(st.pc_ids)
+        cs = z3.simplify(cond)
+        if z3.is_false(cs):
+            raise Infeasible()
         st.assume(cond)
         hyp_ids = {h.get_id() for h in st.pc[n0:]}
         try:
             return thunk()
         finally:
-            keep = []
+            keep, cond_facts = [], []
             for h in st.pc[n0:]:
                 i = h.get_id()
-                if i in hyp_ids or i in st.fact_ids:
+                if i in hyp_ids:
                     st.pc_ids.discard(i)
                     st.fact_ids.pop(i, None)
+                elif i in st.fact_ids:
+                    st.pc_ids.discard(i)
+                    st.fact_ids.pop(i, None)
+                    cond_facts.append(h)
                 else:
                     keep.append(h)
             del st.pc[n0:]
             st.pc.extend(keep)
+            # facts derived under the hypothesis stay available, conditionally on it
+            for h in cond_facts:
+                st.fact(z3.Implies(cond, h))
 
     def ev_BoolOp(self, node, fr):
         is_and = isinstance(node.op, ast.And)
@@ -1459,6 +1474,8 @@ class Interp:
         if not self.has_custom_eq(cls_a):
             return ra == rb
         self.st.eqv_used = True
+        if getattr(self.st, 'eqv_stale', False) and not self.in_spec:
+            self.st.eqv_unsound = True
         self.eqv_facts(ra, rb, cls_a, cls_b)
         return z3.Or(ra == rb, eqv(ra, rb))
 
@@ -1924,7 +1941,8 @@ class Interp:
         # spec-only special forms that must see the AST
         if isinstance(node.func, ast.Name) and fr.lookup(node.func.id) is None:
             nm = node.func.id
-            if nm == 'old' and nm not in fr.globals:
+            if nm == 'old' and (nm not in fr.globals
+                                or getattr(fr.globals[nm], '__module__', '') == 'pyvc.speclib'):
                 return self.ev_old(node, fr)
         f = self.ev(node.func, fr)
         args: List[SV] = []
